@@ -137,5 +137,8 @@ long long cmd_i(const cmd *c, int i);
 void die(const char *fmt, ...) __attribute__((noreturn, format(printf, 1, 2)));
 void behaviour_abort(const char *why) __attribute__((noreturn)); /* after a fault: flush trace, exit 0 */
 void *sym_lookup(const char *name); /* generated table of library entry points */
+int sym_count(void);
+void *sym_at(int i, const char **name);
+const char *sym_name(void *addr);
 
 #endif
